@@ -168,10 +168,12 @@ func computeMutParams() {
 	}
 }
 
-func hasUnboundedLoop(n ast.Node) bool {
+// hasUnboundedLoop: a `for` loop whose trip count is not evidently bounded (it takes its fuel from the function's
+// fuel argument)
+func hasUnboundedLoop(info *types.Info, n ast.Node) bool {
 	found := false
 	ast.Inspect(n, func(m ast.Node) bool {
-		if f, ok := m.(*ast.ForStmt); ok && f.Init == nil && f.Post == nil {
+		if f, ok := m.(*ast.ForStmt); ok && isBoundedFor(info, f) == nil {
 			found = true
 		}
 		return !found
@@ -186,7 +188,7 @@ func computeUsesFuel() {
 			if fd.opaque || fd.usesFuel {
 				continue
 			}
-			uses := hasUnboundedLoop(fd.decl.Body)
+			uses := hasUnboundedLoop(fd.pi.info, fd.decl.Body)
 			ast.Inspect(fd.decl.Body, func(n ast.Node) bool {
 				if c, ok := n.(*ast.CallExpr); ok {
 					t := &fnTrans{fd: fd, pi: fd.pi}
@@ -445,6 +447,14 @@ func (t *fnTrans) effectCall(c *ast.CallExpr) (string, []string, bool) {
 		}
 		fail(c, "io.ReadAll of anything but io.LimitReader(reader, n)")
 	}
+	if qualName(c, info) == "io.ReadFull" && len(c.Args) == 2 {
+		return t.fillCall(c, "readFull", c.Args[0], c.Args[1])
+	}
+	if se, ok := c.Fun.(*ast.SelectorExpr); ok && se.Sel.Name == "Read" && len(c.Args) == 1 {
+		if _, isR := t.readerVar(se.X); isR && isReaderType(t.typeOf(se.X)) {
+			return t.fillCall(c, readKind(c, t.typeOf(se.X)), se.X, c.Args[0])
+		}
+	}
 	if se, ok := c.Fun.(*ast.SelectorExpr); ok && se.Sel.Name == "Write" && len(c.Args) == 1 {
 		if wo, isW := t.readerVar(se.X); isW {
 			a := t.expr(c.Args[0])
@@ -508,6 +518,9 @@ func (t *fnTrans) effectCall(c *ast.CallExpr) (string, []string, bool) {
 		nres := fd.obj.Type().(*types.Signature).Results().Len()
 		total := nres + len(fd.mutParams)
 		for k, i := range fd.mutParams {
+			if isFreshReader(info, c.Args[i]) {
+				continue // bytes.NewBuffer(x) made for this call: what is left of it is dropped
+			}
 			b.WriteString(t.assign(c.Args[i], c.Args[i], tupleProj(tmp, k, total)))
 		}
 		var vals []string
@@ -546,7 +559,9 @@ func (t *fnTrans) effectCall(c *ast.CallExpr) (string, []string, bool) {
 		k = 1
 	}
 	for _, i := range fd.mutParams {
-		b.WriteString(t.assign(c.Args[i], c.Args[i], tupleProj(tmp, k, total)))
+		if !isFreshReader(info, c.Args[i]) {
+			b.WriteString(t.assign(c.Args[i], c.Args[i], tupleProj(tmp, k, total)))
+		}
 		k++
 	}
 	var vals []string
@@ -554,6 +569,19 @@ func (t *fnTrans) effectCall(c *ast.CallExpr) (string, []string, bool) {
 		vals = append(vals, tupleProj(tmp, k+i, total))
 	}
 	return b.String(), vals, true
+}
+
+// isFreshReader: bytes.NewBuffer(x) / bytes.NewReader(x) written as an argument
+func isFreshReader(info *types.Info, e ast.Expr) bool {
+	ce, ok := e.(*ast.CallExpr)
+	if !ok {
+		return false
+	}
+	switch qualName(ce, info) {
+	case "bytes.NewBuffer", "bytes.NewReader":
+		return true
+	}
+	return false
 }
 
 // assignObj rebinds a local variable given as an object
@@ -590,7 +618,7 @@ func (t *fnTrans) defineClosure(id *ast.Ident, fl *ast.FuncLit) {
 	})
 	sort.Slice(ci.caps, func(i, j int) bool { return ci.caps[i].Pos() < ci.caps[j].Pos() })
 	sort.Slice(ci.muts, func(i, j int) bool { return ci.muts[i].Pos() < ci.muts[j].Pos() })
-	ci.usesFuel = hasUnboundedLoop(fl.Body)
+	ci.usesFuel = hasUnboundedLoop(t.pi.info, fl.Body)
 	if ci.usesFuel && !t.fd.usesFuel {
 		fail(fl, "closure with an unbounded loop in a function without fuel")
 	}
@@ -780,14 +808,44 @@ func (t *fnTrans) unrolledRange(x *ast.RangeStmt, after []ast.Stmt, c ctx) strin
 // ---- `for { … }` and `for cond { … }`: a helper with fuel ---------------------------------------
 
 func (t *fnTrans) forStmt(x *ast.ForStmt, after []ast.Stmt, c ctx) string {
-	if x.Init != nil || x.Post != nil {
-		fail(x, "for loop with init/post statements")
-	}
 	if c.helper {
 		fail(x, "nested loop")
 	}
-	if !t.fd.usesFuel {
+	bf := isBoundedFor(t.pi.info, x)
+	if bf == nil && !t.fd.usesFuel {
 		fail(x, "unbounded loop in a function without fuel")
+	}
+	// three-clause loop: the init statement runs once, before the loop (its variable is threaded through the
+	// helper like any other variable the body assigns); the post statement runs at the end of every turn and
+	// before every `continue`
+	initCode := ""
+	if x.Init != nil {
+		as, ok := x.Init.(*ast.AssignStmt)
+		if !ok {
+			fail(x, "for-loop init statement that is not an assignment")
+		}
+		initCode = t.assignStmt(as)
+	}
+	if x.Post != nil {
+		switch x.Post.(type) {
+		case *ast.AssignStmt, *ast.IncDecStmt:
+		default:
+			fail(x, "for-loop post statement that is not an assignment")
+		}
+	}
+	// the name of the fuel variable inside the helper: a bounded loop keeps the function's `fuel` (handed to
+	// callees) apart from its own counter
+	fuelVar := "fuel"
+	fuelArg := "fuel"
+	if bf != nil {
+		fuelVar = "bfuel"
+		slack := 1
+		if bf.incl {
+			slack = 2
+		}
+		fuelArg = fmt.Sprintf("((%s - %s).toNat + %d)", t.expr(bf.bound), t.name(bf.idx), slack)
+		t.bounded = append(t.bounded, bf)
+		defer func() { t.bounded = t.bounded[:len(t.bounded)-1] }()
 	}
 	t.nloop++
 	base := t.fd.leanName
@@ -798,6 +856,9 @@ func (t *fnTrans) forStmt(x *ast.ForStmt, after []ast.Stmt, c ctx) string {
 	// muts: outer variables assigned or consumed in the body; caps: the other known variables it reads
 	mutSet := map[types.Object]bool{}
 	assignedVars(t.pi.info, x.Body, mutSet)
+	if x.Post != nil {
+		assignedVars(t.pi.info, x.Post, mutSet)
+	}
 	used := map[types.Object]bool{}
 	ast.Inspect(x, func(n ast.Node) bool {
 		if id, ok := n.(*ast.Ident); ok {
@@ -853,12 +914,18 @@ func (t *fnTrans) forStmt(x *ast.ForStmt, after []ast.Stmt, c ctx) string {
 		}
 		return parts
 	}
-	recCall := func() string {
-		parts := append(head(), "fuel")
+	recCall0 := func() string {
+		parts := append(head(), fuelVar)
 		if s := names(muts); s != "" {
 			parts = append(parts, s)
 		}
 		return strings.Join(parts, " ") + "\n"
+	}
+	recCall := recCall0
+	if x.Post != nil {
+		recCall = func() string {
+			return t.block([]ast.Stmt{x.Post}, ctx{fall: recCall0, helper: true})
+		}
 	}
 	doneVal := func() string {
 		var vs []string
@@ -907,11 +974,12 @@ func (t *fnTrans) forStmt(x *ast.ForStmt, after []ast.Stmt, c ctx) string {
 	// out of fuel: never reached when the caller supplies enough (a theorem per loop); the value returned is
 	// the function's zero result with an error that no Go code produces
 	fmt.Fprintf(&hb, "  | %s => Loop.ret %s\n", pat("0"), t.fuelResult(x))
-	fmt.Fprintf(&hb, "  | %s =>\n%s", pat("fuel + 1"), indent(indent(body)))
+	fmt.Fprintf(&hb, "  | %s =>\n%s", pat(fuelVar+" + 1"), indent(indent(body)))
 	t.loops = append(t.loops, hb.String())
 
 	var b strings.Builder
-	parts := append(head(), "fuel")
+	b.WriteString(initCode)
+	parts := append(head(), fuelArg)
 	if s := names(muts); s != "" {
 		parts = append(parts, s)
 	}
